@@ -370,8 +370,11 @@ class SliceSlicesIntegers(Slice):
         if isinstance(self.array, SliceSlicesIntegers):
             try:
                 fused = fuse_slice(self.array.index, self.index)
+                # An axis of unknown length only ever carries full slices, which
+                # fuse to ``slice(0, None)``; keep that a full slice instead of
+                # normalizing it against nan (which selects nothing).
                 normalized = tuple(
-                    normalize_slice(idx, dim) if isinstance(idx, slice) else idx
+                    (slice(None) if dim != dim else normalize_slice(idx, dim)) if isinstance(idx, slice) else idx
                     for idx, dim in zip(fused, self.array.array.shape)
                 )
                 return SliceSlicesIntegers(self.array.array, normalized, self.allow_getitem_optimization)
